@@ -25,7 +25,10 @@ def href(spec):
 
 
 def dval(d):
-    """declared default as a python value (array defaults are kept as tuples in the hashable spec)"""
+    """declared default as a python value (array defaults are kept as tuples in the hashable spec, the dictionary
+    a nested hybrid field declares as its default as a tuple of (name, value) pairs)"""
+    if isinstance(d, tuple) and d and isinstance(d[0], tuple) and isinstance(d[0][0], str):
+        return {k: dval(x) for k, x in d}
     return list(d) if isinstance(d, tuple) else d
 
 
@@ -46,7 +49,8 @@ def build_h(spec):
     xof = {}
     for fn, ft, dflt in fields:
         if is_h(ft):
-            c = build_h(ft)
+            # a nested hybrid field that declares a default of its own is written with the struct of the nested class
+            c = build_h(ft) if dflt is None else build_h(ft)._XoStruct
         elif ft[0] == "href":
             c = xo.Ref(build_h(ft[1])._XoStruct)
         else:
@@ -171,7 +175,7 @@ def hset(spec, h, path, value):
     for fn in path[:-1]:
         ft = next(f for n, f, _ in spec[2] if n == fn)
         h = getattr(h, pyname(spec, fn))
-        spec = ft
+        spec = ft[1] if ft[0] == "href" else ft
     setattr(h, pyname(spec, path[-1]), value)
 
 
@@ -208,6 +212,9 @@ def catalogue(tier="quick"):
         H("HK", [("v", arr(f64, [None]), (1.0, 1.0, 1.0)), ("w", arr(i16, [None]), (2, 2)), ("c", f64, 4.0), ("t", STR)], rename=[("w", "ww")]),
         # a class derived from another hybrid class (BASE_OF), with its own fields and declared defaults
         H("HVder", [("n", i64, 2), ("x", f64), ("y", f64, 0.5)]),
+        # a nested hybrid field that declares its OWN default (M11-C19: a nested object equal to the defaults of the
+        # nested class is not equal to the default of the field)
+        H("HP", [("n", i32), ("plain", stat), ("preset", stat, (("x", 5.0), ("y", 4), ("v", (1.0, 2.0, 0.0))))], rename=[("preset", "pre")]),
     ]
     if tier == "thorough":
         cat += [
